@@ -225,6 +225,8 @@ class Body:
                 if si == "t":
                     callee = rec.get("res") or rec.get("fn") or "<indirect>"
                     pv.calls.add((callee, bi))
+                    if rec.get("fn"):
+                        pv.decls.add((rec["fn"], bi))
                     if through_calls:
                         for a in rec["args"]:
                             self._push_op(a, work, pv)
@@ -325,9 +327,11 @@ class Prov:
         self.locals = set()
         self.places = set()
         self.aggs = set()
+        self.decls = set()
 
     def callees(self):
-        return {c for c, _ in self.calls}
+        """resolved and declared callee paths of every call in the slice"""
+        return {c for c, _ in self.calls} | {c for c, _ in self.decls}
 
     def has_field(self, name):
         return any(name in p for _, p in self.places)
